@@ -48,7 +48,10 @@ def canon(e, env=None, post=False, place=False):
         if n in env:
             init, post_at_let = env[n]
             return canon(init, {k2: v for k2, v in env.items() if k2 != n}, post_at_let)
-        return "::".join(A.path_segs(e) or [A.unparse(e)])
+        segs_ = A.path_segs(e) or [A.unparse(e)]
+        if len(segs_) >= 2 and segs_[-2] == "consts":
+            segs_ = segs_[-1:]  # `std::f32::consts::TAU` and an imported `TAU` are one constant
+        return "::".join(segs_)
     if k == "Lit":
         return str(e.get("v"))
     if k == "Field":
@@ -70,10 +73,13 @@ def canon(e, env=None, post=False, place=False):
     if k == "Unary":
         if e["op"] == "*":
             return canon(e["e"], env, post)  # a dereference denotes the same value
+        if e["op"] == "!":
+            return _negate(e["e"], env, post)
         return "%s%s" % (e["op"], canon(e["e"], env, post))
     if k == "Binary":
         l, r = canon(e["left"], env, post), canon(e["right"], env, post)
-        if e["op"] in ("==", "!=") and r < l:
+        if e["op"] in ("==", "!=", "&&", "||") and r < l:
+            # (`&&` / `||` of side-effect-free operands: the order does not change the value)
             l, r = r, l
         return "(%s%s%s)" % (l, e["op"], r)
     if k == "Call":
@@ -93,6 +99,30 @@ def canon(e, env=None, post=False, place=False):
     if k == "Tuple":
         return "(%s)" % ",".join(canon(x, env, post) for x in e["elems"])
     return A.unparse(e).replace(" ", "")
+
+
+def _negate(e, env, post):
+    """canonical text of `!e` with the negation pushed inward: `!(a == b)` is `a != b` (exact for floats
+    too), `!(x && y)` is `!x || !y`, `!!x` is x; a name is resolved first"""
+    e = A.strip(e)
+    k = e.get("k")
+    if k == "Path" and A.ident(e) in env:
+        n = A.ident(e)
+        init, post_at_let = env[n]
+        return _negate(init, {k2: v for k2, v in env.items() if k2 != n}, post_at_let)
+    if k == "Unary" and e["op"] == "!":
+        return canon(e["e"], env, post)
+    if k == "Binary" and e["op"] in ("==", "!="):
+        l, r = canon(e["left"], env, post), canon(e["right"], env, post)
+        if r < l:
+            l, r = r, l
+        return "(%s%s%s)" % (l, "!=" if e["op"] == "==" else "==", r)
+    if k == "Binary" and e["op"] in ("&&", "||"):
+        l, r = _negate(e["left"], env, post), _negate(e["right"], env, post)
+        if r < l:
+            l, r = r, l
+        return "(%s%s%s)" % (l, "||" if e["op"] == "&&" else "&&", r)
+    return "!%s" % canon(e, env, post)
 
 
 def tuple_bindings(pat, init, post=False):
@@ -156,6 +186,15 @@ def summary(fn):
                 nm = A.binding_name(s["pat"])
                 p_ = s["pat"]["pat"] if s["pat"].get("k") == "PType" else s["pat"]
                 if s.get("init") is not None:
+                    iv_ = A.strip(s["init"])
+                    if nm and iv_.get("k") == "Call" and (A.path_segs(iv_["func"]) or [])[-2:] == ["mem", "replace"] and len(iv_["args"]) == 2:
+                        # `let old = mem::replace(&mut place, v);` reads the place, then writes it
+                        place_n = A.strip(iv_["args"][0])
+                        env = dict(env)
+                        env[nm] = (place_n, st["post"])
+                        out.append(("write", tuple(conds), canon(place_n, env, st["post"], place=True), canon(iv_["args"][1], env, st["post"])))
+                        st["post"] = True
+                        continue
                     self_calls(s["init"], env, conds)
                     if nm and not p_.get("mut"):  # a mutable local is state, not a name for a value
                         env = dict(env)
